@@ -5,7 +5,11 @@
 use crate::board::BoardState;
 use crate::bridge::*;
 use crate::draw_table::DrawTable;
+#[cfg(feature = "sb")]
 use crate::engine::get_best_move;
+
+/// false in the fallback build (see Cargo.toml): every S-B scenario is then unavailable
+pub const AVAILABLE: bool = cfg!(feature = "sb");
 use crate::referee::{self as r, Mv, Pos};
 use crate::verif_seam::{self as seam, mpsc, time::Instant, Ctx, Scripted, ScriptedStop};
 use crate::zobrist::ZobristHasher;
@@ -47,7 +51,13 @@ pub fn run_search_with_allowance(board: &BoardState, table: &DrawTable, expire_a
     let prev = seam::install(Ctx::Scripted(Scripted { expire_at, queries: 0, nodes: 0, lines: vec![], sends: vec![], stop_at_depth, node_cap, capped: false }));
     let start = Instant(0);
     let res = std::panic::catch_unwind(std::panic::AssertUnwindSafe(|| {
+        #[cfg(feature = "sb")]
         get_best_move(board, &mut t, start, allowance_ms, &tx);
+        #[cfg(not(feature = "sb"))]
+        {
+            let _ = (&board, &mut t, start, allowance_ms, &tx);
+            panic!("the S-B scenario family is not available in this build");
+        }
     }));
     let ctx = seam::install(prev);
     let s = match ctx {
